@@ -1,5 +1,5 @@
 """Table from which tools/gen_manifest.py writes MANIFEST.json."""
-FIX_COMMITS = ["77a8511 (C20)", "5ffb491 (C06)", "c8070ac (C06)", "17c5c88 (C10)"]
+FIX_COMMITS = ["77a8511 (C20)", "5ffb491 (C06)", "c8070ac (C06)", "17c5c88 (C10)", "0f02627 (C12/C11)", "b090335 (C12)", "379af9d (C11)"]
 
 CHECKS = {
     "C20": {
@@ -34,6 +34,26 @@ CHECKS = {
         "note": "Not decided: physics of nu_pol/psi, numerical alignment, user-supplied components. Frozen exception: abstract base "
                 "AntennaSystem has no `position` (every concrete system assigns it). Trusted: Python call-binding rules as "
                 "re-implemented in pvx/core/sigbind.py.",
+    },
+    "C11": {
+        "technique": "static analysis: def-use pairing of counters/resizes/index entries with normal-form equality, gating and ordering rules, table exhaustiveness",
+        "text": "Writer side of io.py. R11a pairs each of the 6 per-table counter increments with the resize of its dataset(s), the "
+                "(start,length) entry (start = pre-increment counter, length = increment, equal as polynomial normal forms) and row "
+                "stores inside [start,start+length): sufficient for 'the index table addresses rows inside the datasets'. R11b/R11c fix "
+                "the option gating table and the ordering (checks raise first, preset before writers, event counter last and only there) "
+                "that carries the rejected-add clause; R11d proves writer/reader table agreement exhaustively over all constant keys; R11e "
+                "keyed-column stores; R11g reader slice. Holds for every add sequence because stated per writer, not per history.",
+        "note": "Not decided: h5py semantics, value equality of what is read back. The reading half (rows through each event's own index "
+                "entry) is R12a under C12. Trusted: CPython ast; Dataset.resize keeps existing rows.",
+    },
+    "C12": {
+        "technique": "static analysis: flow-sensitive def-use (column dependence), raw/normalised typestate, normal-form agreement of index arithmetic, key-table agreement",
+        "text": "R12a: flow-sensitive dependence analysis of EventIterator._load_data proves each event's rows are cut with that event's own "
+                "start column (necessary for slices with step>1, chunking and files with rejected adds). R12b: typestate raw->normalised on "
+                "slice bounds in HDF5Reader.__getitem__ (a difference of raw bounds must not reach min/range/slice_range). R12c: one normal "
+                "form of the event number at its 9 uses + reload arithmetic. R12d: append-mode counter recovery over the same key set from "
+                "shape[0]. R12e/R12f: replay key agreement between Particle/Interaction metadata and FileGenerator, parallel-list discipline.",
+        "note": "Not decided: data equality itself, foreign files. Trusted: CPython ast; Python slice.indices semantics.",
     },
 }
 
